@@ -182,7 +182,9 @@ func (f *Frame) bumpAlloc() {
 	e.assert(fmt.Sprintf("(>= %s %s)", e.hget(f.heap, av), before))
 }
 
-func (f *Frame) havocAll() {
+func (f *Frame) havocAll() { f.havocAllExcept(nil) }
+
+func (f *Frame) havocAllExcept(keep []string) {
 	e := f.e
 	before := f.heap.clone()
 	defer func() {
@@ -202,13 +204,13 @@ func (f *Frame) havocAll() {
 		if strings.HasPrefix(v, "ghost!") {
 			continue
 		}
-		if v == "$alloc" {
+		if v == "$alloc" || (len(keep) > 0 && matchPreserves(keep, v)) {
 			continue
 		}
 		e.hhavoc(f.heap, v)
 	}
 	for v := range f.heap.m {
-		if strings.HasPrefix(v, "ghost!") || v == "$alloc" {
+		if strings.HasPrefix(v, "ghost!") || v == "$alloc" || (len(keep) > 0 && matchPreserves(keep, v)) {
 			continue
 		}
 		known := false
@@ -245,6 +247,10 @@ func (f *Frame) funcValueCall(common *ssa.CallCommon, args []Val, rt types.Type,
 			env := map[string]specVal{"self": {v: f.get(common.Value), t: common.Value.Type()}}
 			return f.applyContractEnv(con, names, args, common.Signature(), rt, siteKey, pos, key, env)
 		}
+	}
+	if con := e.P.specs.Contracts["functype:*"]; con != nil {
+		e.note("assumed contract for calls through function values (user-registered functions / directives): " + strings.Join(con.Preserves, " ") + " preserved")
+		return f.applyContractEnv(con, nil, args, common.Signature(), rt, siteKey, pos, "functype:*", nil)
 	}
 	e.note("call through a function value: whole heap havoced")
 	f.havocAll()
@@ -336,15 +342,19 @@ func (f *Frame) applyContractEnv(con *Contract, names []string, args []Val, sig 
 			continue
 		}
 		shared := false
-		for _, cp := range con.Props {
+		cprops := con.Props
+		if c.Props != nil {
+			cprops = c.Props // clause-level property tags decide who must discharge the precondition
+		}
+		for _, cp := range cprops {
 			if hasProp(f.props(), cp) {
 				shared = true
 			}
 		}
-		if shared || len(con.Props) == 0 || con.Extern {
+		if shared || len(cprops) == 0 || con.Extern {
 			e.addObl("pre", siteKey+":"+clauseLabel(c, i), f.curReach, t, pos, c.Src, f.props())
 		} else {
-			e.note(fmt.Sprintf("precondition of %s (%s) is assumed at the call: it belongs to %v, which this function's contract does not claim", disp, c.Src, con.Props))
+			e.note(fmt.Sprintf("precondition of %s (%s) is assumed at the call: it belongs to %v, which this function's contract does not claim", disp, c.Src, cprops))
 		}
 		e.assumeAt(f.curReach, t)
 	}
@@ -380,22 +390,68 @@ func (f *Frame) applyContractEnv(con *Contract, names []string, args []Val, sig 
 	}
 	oldHeap := f.heap.clone()
 	if con.ModAll || (len(con.Modifies) == 0 && !con.Pure && !con.Extern) {
-		// no frame declared: the callee may change anything
-		f.havocAll()
-		for _, hv := range con.Preserves {
-			if _, ok := e.S.heapSort[hv]; !ok {
+		// no frame declared: the callee may change anything -- except the heap variables
+		// it preserves. Those keep their value: pre-existing objects are unchanged by
+		// contract, and cells of objects the callee allocates were unconstrained
+		// before the call, which already models "whatever the callee stored there".
+		keep := append([]string{}, con.Preserves...)
+		type fo struct {
+			ptr string
+			t   types.Type
+		}
+		var fos []fo
+		for _, c := range con.FieldsOf {
+			v, vt, err := mkEnv(oldHeap).eval(c.Expr)
+			pt, ok := vt.Underlying().(*types.Pointer)
+			if err != nil || !ok {
+				e.unsupp("fieldsof " + c.Src)
 				continue
 			}
-			now, before := e.hget(f.heap, hv), e.hget(oldHeap, hv)
-			if now != before {
-				e.assert(fmt.Sprintf("(forall ((r Int)) (=> (and (> r 0) (< r %s)) (= (select %s r) (select %s r))))", e.hget(oldHeap, "$alloc"), now, before))
+			if key, st := structKey(pt.Elem()); st != nil {
+				keep = append(keep, "F!"+key+"!*")
+				fos = append(fos, fo{v.T, pt.Elem()})
+			}
+		}
+		f.havocAllExcept(keep)
+		for _, x := range fos {
+			_, st := structKey(x.t)
+			for i := 0; i < st.NumFields(); i++ {
+				fv := e.S.fieldVar(x.t, i)
+				nv := f.havocVal(st.Field(i).Type(), "fld")
+				e.hset(f.heap, fv, fmt.Sprintf("(store %s %s %s)", e.hget(f.heap, fv), x.ptr, nv.T))
 			}
 		}
 	} else {
+		// all locations are evaluated in the pre-state, then havoced
+		preState := mkEnv(oldHeap)
+		var locs []specVal
 		for _, m := range con.Modifies {
-			sv, err := pre.evalLoc(m.Expr)
+			sv, err := preState.evalLoc(m.Expr)
 			if err != nil || sv.loc == nil {
 				e.unsupp(fmt.Sprintf("modifies of %s: %s: %v", disp, m.Src, err))
+				continue
+			}
+			locs = append(locs, sv)
+		}
+		for _, sv := range locs {
+			if sv.loc.Kind == locMapAll {
+				mt := sv.loc.T.Underlying().(*types.Map)
+				for _, hv := range []string{e.S.mapVar(mt), e.S.mapDomVar(mt)} {
+					so := e.S.heapSort[hv]
+					inner := strings.TrimSuffix(strings.TrimPrefix(so, "(Array Int "), ")")
+					n := e.fresh("modmap")
+					e.decl(n, inner)
+					e.hset(f.heap, hv, fmt.Sprintf("(store %s %s %s)", e.hget(f.heap, hv), sv.loc.Ptr, n))
+				}
+				ln := f.havocVal(tInt, "modmaplen")
+				e.assert("(>= " + ln.T + " 0)")
+				e.hset(f.heap, e.S.mapLenVar(), fmt.Sprintf("(store %s %s %s)", e.hget(f.heap, e.S.mapLenVar()), sv.loc.Ptr, ln.T))
+				continue
+			}
+			if sv.loc.Kind == locElemAll {
+				n := e.fresh("modarr")
+				e.decl(n, "(Array Int "+e.S.sortOf(sv.loc.T)+")")
+				e.store(f.heap, sv.loc, n)
 				continue
 			}
 			hv := f.havocVal(sv.loc.T, "mod")
